@@ -9,7 +9,11 @@
      std-log bridge, as a table (method -> family of C05/Cores.v -> guards).
    No proofs in this file.
 
-   input  = (tree cells dev onpanic onfatal child (call ...) [(stack ...)])     tree/cells as in C05/Model.v (all leaves are IO cores)
+   input  = (tree cells dev onpanic onfatal child (call ...) [(stack ...) [noise [(failing ...)]]])
+             tree/cells as in C05/Model.v (all leaves are IO cores), plus (9 t id) = a user-defined wrapper number id around t that
+             adds ITSELF to the CheckedEntry when t is enabled and forwards Core.Write to t (the composite Write methods -
+             multiCore.Write, levelFilterCore.Write, lazyWithCore.Write, the sampler's promoted Write, hooked.Write - are then
+             on the path: xcore / x_write below); failing = the leaves whose sink returns an error from every Write
              the tree may contain samplers that really drop: (8 t first thereafter) = NewSamplerWithOptions(t, 1h, first,
              thereafter, hook).  All calls of a case run on ONE logger within one sampler tick: a sampler counts the
              entries it is asked about per level and message bucket (sampler.go: counts.get(level, message) = fnv32a of
@@ -37,7 +41,9 @@
              | (2 inner) zapcore.Lock | (3 inner) zapcore.AddSync of a writer that has a Sync method
              | (4 (inner ...)) zapcore.NewMultiWriteSyncer
      special input (table): the observation must be the method table
-   observation = ((o ...) (flushed ...)):  o = ((ev ...) term pend ((k d) ...)), ev = (0 id) Write | (1 id) Sync | (2 h) hook,
+   observation = ((o ...) (flushed ...)):  o = ((ev ...) term pend ((k d) ...)), ev = (0 id) Write | (1 id) Sync | (2 h) hook
+            | (3 h) hook set h ran because a wrapper above it forwarded Write to its hooked core (a failing sink records the
+            attempted Write; ioCore.Write returns its error before the Sync),
      term = () | (0 #value) panic with that value | (1) exit status 1 | (2) Goexit | (3 k) custom hook k ran
             | (4 k term') hook k of kind 6 ran and then control was lost / returned as term' says;
      pend = for every leaf that has a stack, for every recording sink below it: the number of bytes the IO core has
@@ -126,7 +132,9 @@ Definition after_hook (lg : logger) (l : level) : option action :=
   else None.
 
 (* ---------------- CheckedEntry.Write ---------------- *)
-Inductive ev := EWrite (id : nat) | ESync (id : nat) | EHook (h : nat).
+(* EFHook h: the hook set h of a hooked core ran because a core ABOVE it forwarded Core.Write to it (hooked.Write),
+   not because the hooked core was on the CheckedEntry itself *)
+Inductive ev := EWrite (id : nat) | ESync (id : nat) | EHook (h : nat) | EFHook (h : nat).
 (* ioCore.Write syncs when ent.Level > ErrorLevel; observer cores (io id = false) have nothing to sync *)
 Definition write_events (io : nat -> bool) (l : level) (ws : list writer) : list ev :=
   flat_map (fun x => match x with
@@ -177,6 +185,7 @@ Fixpoint flushed_lines (id : nat) (evs : list ev) (pending done : nat) : nat :=
   | EWrite i :: r => if Nat.eqb i id then flushed_lines id r (S pending) done else flushed_lines id r pending done
   | ESync i :: r => if Nat.eqb i id then flushed_lines id r 0 (done + pending) else flushed_lines id r pending done
   | EHook _ :: r => flushed_lines id r pending done
+  | EFHook _ :: r => flushed_lines id r pending done
   end.
 
 (* ---------------- WriteSyncer combinators between an IO core and its sinks ----------------
@@ -271,6 +280,200 @@ Fixpoint run_evs (lens : list Z) (st : sinks) (evs : list ev) : sinks :=
   | EWrite i :: r => run_evs (tl lens) (sk_upd st i (sk_write (hd 0 lens) (st i))) r
   | ESync i :: r => run_evs lens (sk_upd st i (sk_sync (st i))) r
   | EHook _ :: r => run_evs lens st r
+  | EFHook _ :: r => run_evs lens st r
+  end.
+
+(* ---------------- composite cores written through their own Write method ----------------
+   zap's own wrappers let the cores beneath them register individually in Check, so CheckedEntry.Write calls the
+   leaves' Write directly and multiCore.Write, levelFilterCore.Write, lazyWithCore.Write and the sampler's promoted
+   Write are off the path.  A user-defined wrapper of the usual shape (filter / audit / metrics core)
+
+       type forwardingCore struct{ zapcore.Core }
+       func (c forwardingCore) Check(ent, ce) *CheckedEntry { if c.Enabled(ent.Level) { return ce.AddCore(ent, c) }; return ce }
+       func (c forwardingCore) Write(ent, fields) error     { return c.Core.Write(ent, fields) }
+       func (c forwardingCore) With(fields) Core            { return forwardingCore{c.Core.With(fields)} }
+
+   registers ITSELF and forwards Write to whatever it wraps: the composite Write methods are then what stands
+   between the CheckedEntry and the IO cores.  [xcore] is a core as its Write method sees it:
+     zapcore/core.go            ioCore.Write: encode, out.Write - on an error return it -, Sync above ErrorLevel; nopCore.Write
+     zapcore/tee.go             multiCore.Write: for i := range mc { err = multierr.Append(err, mc[i].Write(ent, fields)) }
+     zapcore/hook.go            hooked.Write: the hook functions only ("our downstream had a chance to register itself
+                                directly with the CheckedMessage, we don't need to call it here") - every one of them,
+                                errors appended
+     zapcore/increase_level.go  levelFilterCore.Write: c.core.Write (no level check)
+     zapcore/sampler.go         no Write method: the embedded Core's (no sampling decision)
+     zapcore/lazy_with.go       lazyWithCore.Write: initOnce, d.core.Write
+   and the forwarding wrapper.  Core.With keeps the shape (lazyWithCore.With returns the wrapped core's With). *)
+Inductive xcore :=
+| XLeaf (id : nat)
+| XNop
+| XTee (cs : list xcore)
+| XHooked (c : xcore) (h : nat)
+| XFilter (c : xcore)
+| XSampled (c : xcore)
+| XLazy (c : xcore)
+| XFwd (c : xcore).
+
+Section XcoreInd.
+  Variable P : xcore -> Prop.
+  Hypothesis HL : forall i, P (XLeaf i).
+  Hypothesis HN : P XNop.
+  Hypothesis HT : forall cs, Forall P cs -> P (XTee cs).
+  Hypothesis HH : forall c h, P c -> P (XHooked c h).
+  Hypothesis HF : forall c, P c -> P (XFilter c).
+  Hypothesis HS : forall c, P c -> P (XSampled c).
+  Hypothesis HZ : forall c, P c -> P (XLazy c).
+  Hypothesis HW : forall c, P c -> P (XFwd c).
+  Fixpoint xcore_ind' (c : xcore) : P c :=
+    match c with
+    | XLeaf i => HL i
+    | XNop => HN
+    | XTee cs => HT cs ((fix go (l : list xcore) : Forall P l :=
+                           match l with [] => Forall_nil _ | x :: t => Forall_cons _ (xcore_ind' x) (go t) end) cs)
+    | XHooked c h => HH c h (xcore_ind' c)
+    | XFilter c => HF c (xcore_ind' c)
+    | XSampled c => HS c (xcore_ind' c)
+    | XLazy c => HZ c (xcore_ind' c)
+    | XFwd c => HW c (xcore_ind' c)
+    end.
+End XcoreInd.
+
+Definition x_new_tee (cs : list xcore) : xcore := match cs with [] => XNop | [c] => c | _ => XTee cs end.
+Fixpoint x_with (c : xcore) : xcore :=
+  match c with
+  | XLeaf i => XLeaf i
+  | XNop => XNop
+  | XTee cs => XTee (map x_with cs)
+  | XHooked c h => XHooked (x_with c) h
+  | XFilter c => XFilter (x_with c)
+  | XSampled c => XSampled (x_with c)
+  | XLazy c => x_with c
+  | XFwd c => XFwd (x_with c)
+  end.
+
+(* ioCore.Write on a sink whose Write fails ([fails id]) returns the error before it gets to the Sync; the
+   result is (events, err != nil) *)
+Definition leaf_write (fails : nat -> bool) (hi : bool) (i : nat) : list ev * bool :=
+  if fails i then ([EWrite i], true) else (EWrite i :: (if hi then [ESync i] else []), false).
+(* Core.Write of a composite; [hfails h]: a hook function of set h returns an error; [hi] = ent.Level > ErrorLevel *)
+Fixpoint x_write (fails hfails : nat -> bool) (hi : bool) (c : xcore) {struct c} : list ev * bool :=
+  match c with
+  | XLeaf i => leaf_write fails hi i
+  | XNop => ([], false)
+  | XTee cs => (fix go (cs : list xcore) : list ev * bool :=
+                  match cs with
+                  | [] => ([], false)                                   (* var err error *)
+                  | c :: r => let a := x_write fails hfails hi c in     (* err = multierr.Append(err, mc[i].Write(..)) *)
+                              let b := go r in (fst a ++ fst b, snd a || snd b)
+                  end) cs
+  | XHooked _ h => ([EFHook h], hfails h)
+  | XFilter c => x_write fails hfails hi c
+  | XSampled c => x_write fails hfails hi c
+  | XLazy c => x_write fails hfails hi c
+  | XFwd c => x_write fails hfails hi c
+  end.
+(* "return on the first error" in multiCore.Write - refuted (Props: C06_tee_first_error_refuted) *)
+Fixpoint x_write_ff (fails hfails : nat -> bool) (hi : bool) (c : xcore) {struct c} : list ev * bool :=
+  match c with
+  | XLeaf i => leaf_write fails hi i
+  | XNop => ([], false)
+  | XTee cs => (fix go (cs : list xcore) : list ev * bool :=
+                  match cs with
+                  | [] => ([], false)
+                  | c :: r => let a := x_write_ff fails hfails hi c in
+                              if snd a then (fst a, true) else let b := go r in (fst a ++ fst b, snd b)
+                  end) cs
+  | XHooked _ h => ([EFHook h], hfails h)
+  | XFilter c => x_write_ff fails hfails hi c
+  | XSampled c => x_write_ff fails hfails hi c
+  | XLazy c => x_write_ff fails hfails hi c
+  | XFwd c => x_write_ff fails hfails hi c
+  end.
+
+(* specification: the IO cores a composite's Write must reach - every leaf beneath it along edges that forward
+   Write (all of a tee's, whatever the others return), none beneath a hooked core - and the hook sets it runs *)
+Fixpoint x_reach (c : xcore) : list nat :=
+  match c with
+  | XLeaf i => [i]
+  | XNop => []
+  | XTee cs => (fix go (cs : list xcore) : list nat := match cs with [] => [] | c :: r => x_reach c ++ go r end) cs
+  | XHooked _ _ => []
+  | XFilter c => x_reach c
+  | XSampled c => x_reach c
+  | XLazy c => x_reach c
+  | XFwd c => x_reach c
+  end.
+Fixpoint x_hooks (c : xcore) : list nat :=
+  match c with
+  | XLeaf _ => []
+  | XNop => []
+  | XTee cs => (fix go (cs : list xcore) : list nat := match cs with [] => [] | c :: r => x_hooks c ++ go r end) cs
+  | XHooked _ h => [h]
+  | XFilter c => x_hooks c
+  | XSampled c => x_hooks c
+  | XLazy c => x_hooks c
+  | XFwd c => x_hooks c
+  end.
+(* every leaf of the tree, in pre-order (the order in which the harness hands out sink stacks and files) *)
+Fixpoint x_leaves (c : xcore) : list nat :=
+  match c with
+  | XLeaf i => [i]
+  | XNop => []
+  | XTee cs => (fix go (cs : list xcore) : list nat := match cs with [] => [] | c :: r => x_leaves c ++ go r end) cs
+  | XHooked c _ => x_leaves c
+  | XFilter c => x_leaves c
+  | XSampled c => x_leaves c
+  | XLazy c => x_leaves c
+  | XFwd c => x_leaves c
+  end.
+
+(* what is on the CheckedEntry: IO leaves, hooked cores and forwarding wrappers ([fw id] = the core wrapper number
+   id wraps).  CheckedEntry.Write: for i := range ce.cores { err = multierr.Append(err, ce.cores[i].Write(ce.Entry, fields)) } *)
+Record fenv := { fe_fw : nat -> option xcore; fe_fails : nat -> bool; fe_hfails : nat -> bool }.
+Definition core_write (fx : fenv) (hi : bool) (x : writer) : list ev * bool :=
+  match x with
+  | WLeaf i => match fe_fw fx i with
+               | Some c => x_write (fe_fails fx) (fe_hfails fx) hi c
+               | None => leaf_write (fe_fails fx) hi i
+               end
+  | WHook h => ([EHook h], fe_hfails fx h)
+  end.
+Fixpoint ce_write (fx : fenv) (hi : bool) (ws : list writer) : list ev * bool :=
+  match ws with
+  | [] => ([], false)
+  | x :: r => let a := core_write fx hi x in let b := ce_write fx hi r in (fst a ++ fst b, snd a || snd b)
+  end.
+(* one call on a logger whose tree contains forwarding wrappers and cores that fail: [lcore lg] is the tree as
+   Core.Check sees it - a forwarding wrapper is a leaf that is enabled when the core it wraps is (fwd_enabler
+   below) - and CheckedEntry.Write goes through the Write methods *)
+Definition log_call_x (fx : fenv) (dec : decisions) (w : world) (lg : logger) (f : fam) (l : level) : list ev * option action :=
+  (fst (ce_write fx (ErrorL <? l) (call_writers_s dec w (lcore lg) f l)), snd (log_call_s dec w lg (fun _ => true) f l)).
+(* no wrappers, nothing fails *)
+Definition fx_plain : fenv := {| fe_fw := fun _ => None; fe_fails := fun _ => false; fe_hfails := fun _ => false |}.
+
+(* specification *)
+Definition reach_of (fx : fenv) (i : nat) : list nat := match fe_fw fx i with Some c => x_reach c | None => [i] end.
+Definition fhooks_of (fx : fenv) (i : nat) : list nat := match fe_fw fx i with Some c => x_hooks c | None => [] end.
+
+(* sinks: a Write that fails leaves nothing in the sink; every Write of a healthy IO core above error level is
+   immediately followed by the Sync of the same sink, a failed one is not, and there is no other Sync *)
+Fixpoint flushed_lines_x (fails : nat -> bool) (id : nat) (evs : list ev) (pending done : nat) : nat :=
+  match evs with
+  | [] => done
+  | EWrite i :: r => if Nat.eqb i id && negb (fails i) then flushed_lines_x fails id r (S pending) done
+                     else flushed_lines_x fails id r pending done
+  | ESync i :: r => if Nat.eqb i id then flushed_lines_x fails id r 0 (done + pending) else flushed_lines_x fails id r pending done
+  | EHook _ :: r => flushed_lines_x fails id r pending done
+  | EFHook _ :: r => flushed_lines_x fails id r pending done
+  end.
+Fixpoint run_evs_x (fails : nat -> bool) (lens : list Z) (st : sinks) (evs : list ev) : sinks :=
+  match evs with
+  | [] => st
+  | EWrite i :: r => if fails i then run_evs_x fails lens st r
+                     else run_evs_x fails (tl lens) (sk_upd st i (sk_write (hd 0 lens) (st i))) r
+  | ESync i :: r => run_evs_x fails lens (sk_upd st i (sk_sync (st i))) r
+  | EHook _ :: r => run_evs_x fails lens st r
+  | EFHook _ :: r => run_evs_x fails lens st r
   end.
 
 (* ---------------- the sampler's counters ---------------- *)
@@ -316,9 +519,11 @@ Definition dec_hook (s : sx) : hookcfg :=
   | _ => HCustom (sx_n (sx_nth s 1))
   end.
 Definition enc_ev (e : ev) : sx :=
-  match e with EWrite i => SL [SZ 0; of_nat i] | ESync i => SL [SZ 1; of_nat i] | EHook h => SL [SZ 2; of_nat h] end.
+  match e with EWrite i => SL [SZ 0; of_nat i] | ESync i => SL [SZ 1; of_nat i] | EHook h => SL [SZ 2; of_nat h]
+             | EFHook h => SL [SZ 3; of_nat h] end.
 Definition dec_ev (s : sx) : ev :=
-  match sx_z (sx_nth s 0) with 0 => EWrite (sx_n (sx_nth s 1)) | 1 => ESync (sx_n (sx_nth s 1)) | _ => EHook (sx_n (sx_nth s 1)) end.
+  match sx_z (sx_nth s 0) with 0 => EWrite (sx_n (sx_nth s 1)) | 1 => ESync (sx_n (sx_nth s 1)) | 2 => EHook (sx_n (sx_nth s 1))
+                             | _ => EFHook (sx_n (sx_nth s 1)) end.
 (* ---------------- the terminal action works on the *CheckedEntry it is handed ----------------
    CheckWriteAction.OnWrite(ce, _): WriteThenPanic does panic(ce.Message).  A custom CheckWriteHook may look at ce
    (level, message, logger name) and act on what it finds; the hooks of kind 6 do, after logging through another
@@ -344,15 +549,14 @@ Definition hook_term (a : option action) (saw : entry) : sx :=
 Definition hook_looks (a : option action) : bool :=
   match a with Some (ACustom _) | Some (AHook _ _) => true | _ => false end.
 Definition enc_entry (e : entry) : sx := SL [SZ (en_level e); SB (en_msg e); SB (en_name e)].
-(* the cores a call writes, one read of ce.Entry each; the entry hooks among them report what they were handed *)
-Fixpoint ncores (evs : list ev) : nat :=
-  match evs with [] => 0%nat | ESync _ :: r => ncores r | _ :: r => S (ncores r) end.
-Fixpoint hook_reads (evs : list ev) (reads : list entry) : list entry :=
-  match evs with
+(* the cores on the CheckedEntry are handed ce.Entry one after the other, one read each; the entry hooks among them
+   report what they were handed - and so do the hook sets beneath a forwarding wrapper, which are handed what the
+   wrapper was *)
+Fixpoint reads_x (fx : fenv) (ws : list writer) (reads : list entry) : list entry :=
+  match ws with
   | [] => []
-  | EWrite _ :: r => hook_reads r (tl reads)
-  | ESync _ :: r => hook_reads r reads
-  | EHook _ :: r => hd blank reads :: hook_reads r (tl reads)
+  | WLeaf i :: r => repeat (hd blank reads) (length (fhooks_of fx i)) ++ reads_x fx r (tl reads)
+  | WHook _ :: r => hd blank reads :: reads_x fx r (tl reads)
   end.
 Record noise := { nz_name : bytes; nz_nested : nat; nz_conc : nat }.
 Definition dec_noise (i : sx) : noise :=
@@ -386,12 +590,97 @@ Definition leaf_ids (c : core) : list nat := map snd (paths c).
 
 Definition is_table (i : sx) : bool := match i with SB _ => true | _ => false end.
 
-Definition dec_logger (ok : world -> core -> enabler -> bool) (w0 : world) (i : sx) : logger :=
-  {| lcore := fst (build_with ok w0 (sx_nth i 0)); dev := sx_bool (sx_nth i 2);
+(* ---------------- trees with forwarding wrappers: (9 t id) ----------------
+   the tree as the Write methods see it *)
+Fixpoint dec_x (s : sx) {struct s} : xcore :=
+  match s with
+  | SL (SZ tag :: args) =>
+      match tag, args with
+      | 0, [id; _] => XLeaf (sx_n id)
+      | 2, cs => x_new_tee (map dec_x cs)
+      | 3, [c; h] => XHooked (dec_x c) (sx_n h)
+      | 4, [c; _] => XFilter (dec_x c)      (* a rejected NewIncreaseLevelCore leaves the wrapped core: the same Write *)
+      | 5, [c] => XSampled (dec_x c)
+      | 8, [c; _; _] => XSampled (dec_x c)
+      | 6, [c] => XLazy (dec_x c)
+      | 7, [c] => x_with (dec_x c)
+      | 9, [c; _] => XFwd (dec_x c)
+      | _, _ => XNop
+      end
+  | _ => XNop
+  end.
+(* the tree without the wrappers: what Enabled sees (the wrapper embeds the Core: Enabled is promoted) *)
+Fixpoint strip_fwd (s : sx) {struct s} : sx :=
+  match s with
+  | SL (SZ tag :: args) =>
+      match tag, args with
+      | 2, cs => SL (SZ 2 :: map strip_fwd cs)
+      | 3, [c; h] => SL [SZ 3; strip_fwd c; h]
+      | 4, [c; en] => SL [SZ 4; strip_fwd c; en]
+      | 5, [c] => SL [SZ 5; strip_fwd c]
+      | 6, [c] => SL [SZ 6; strip_fwd c]
+      | 7, [c] => SL [SZ 7; strip_fwd c]
+      | 8, [c; fi; th] => SL [SZ 8; strip_fwd c; fi; th]
+      | 9, [c; _] => strip_fwd c
+      | _, _ => s
+      end
+  | _ => s
+  end.
+(* a LevelEnablerFunc as the wire spells it: a truth table over the 256 values of zapcore.Level *)
+Definition tbl_of (f : level -> bool) : bytes :=
+  map (fun n => if f (Z.of_nat n - 128) then x01 else x00) (seq 0 256).
+(* the tree as Core.Check sees it: an (outermost) wrapper is a core that adds itself when the core it wraps is
+   enabled - a leaf whose enabler is [en_of w c], c = the wrapped core: the code's Enabled in the model, the path
+   specification's accepts in the oracle.  What is beneath the wrapper is not asked (no Check, no sampler decision) *)
+Fixpoint outer_sx (en_of : world -> core -> level -> bool) (ok : world -> core -> enabler -> bool) (w : world) (s : sx) {struct s} : sx :=
+  match s with
+  | SL (SZ tag :: args) =>
+      match tag, args with
+      | 2, cs => SL (SZ 2 :: map (outer_sx en_of ok w) cs)
+      | 3, [c; h] => SL [SZ 3; outer_sx en_of ok w c; h]
+      | 4, [c; en] => SL [SZ 4; outer_sx en_of ok w c; en]
+      | 5, [c] => SL [SZ 5; outer_sx en_of ok w c]
+      | 6, [c] => SL [SZ 6; outer_sx en_of ok w c]
+      | 7, [c] => SL [SZ 7; outer_sx en_of ok w c]
+      | 8, [c; fi; th] => SL [SZ 8; outer_sx en_of ok w c; fi; th]
+      | 9, [c; id] => SL [SZ 0; id; SL [SZ 2; SB (tbl_of (en_of w (fst (build_with ok w (strip_fwd c)))))]]
+      | _, _ => s
+      end
+  | _ => s
+  end.
+(* the (outermost) wrappers of a tree and what each of them wraps *)
+Fixpoint fwds (s : sx) {struct s} : list (nat * xcore) :=
+  match s with
+  | SL (SZ tag :: args) =>
+      match tag, args with
+      | 2, cs => flat_map fwds cs
+      | 3, [c; _] => fwds c
+      | 4, [c; _] => fwds c
+      | 5, [c] => fwds c
+      | 6, [c] => fwds c
+      | 7, [c] => map (fun p => (fst p, x_with (snd p))) (fwds c)
+      | 8, [c; _; _] => fwds c
+      | 9, [c; id] => [(sx_n id, dec_x c)]
+      | _, _ => []
+      end
+  | _ => []
+  end.
+Definition fw_find (l : list (nat * xcore)) (i : nat) : option xcore :=
+  match find (fun p => Nat.eqb (fst p) i) l with Some p => Some (snd p) | None => None end.
+(* element 9 of the input: the leaves whose sink fails every Write; the harness's hook sets with an odd number
+   return an error after they ran *)
+Definition dec_fenv (i : sx) : fenv :=
+  {| fe_fw := fw_find (fwds (sx_nth i 0));
+     fe_fails := fun id => existsb (Nat.eqb id) (map sx_n (sx_l (sx_nth i 9)));
+     fe_hfails := Nat.odd |}.
+Definition all_leaves (i : sx) : list nat := x_leaves (dec_x (sx_nth i 0)).
+
+Definition dec_logger (en_of : world -> core -> level -> bool) (ok : world -> core -> enabler -> bool) (w0 : world) (i : sx) : logger :=
+  {| lcore := fst (build_with ok w0 (outer_sx en_of ok w0 (sx_nth i 0))); dev := sx_bool (sx_nth i 2);
      on_panic := dec_hook (sx_nth i 3); on_fatal := dec_hook (sx_nth i 4) |}.
 
-(* the leaves that have a stack (the first ones of leaf_ids), and the initial state *)
-Definition sk_ids (c : core) (stks : list ws) : list nat := firstn (length stks) (leaf_ids c).
+(* the leaves that have a stack (the first ones, in pre-order), and the initial state *)
+Definition sk_ids (leaves : list nat) (stks : list ws) : list nat := firstn (length stks) leaves.
 Definition sk_init (ids : list nat) (stks : list ws) : sinks :=
   fun id => match find (fun p => Nat.eqb (fst p) id) (combine ids stks) with Some p => snd p | None => SkSink 0 0 end.
 Definition enc_pend (ids : list nat) (st : sinks) : sx :=
@@ -400,44 +689,50 @@ Definition enc_pend (ids : list nat) (st : sinks) : sx :=
 (* one call, given the samplers' decisions for it: the events, the terminal action, what every sink below every
    leaf has not committed when the call ends (= when control is lost, if it is), and the decisions of the
    samplers the call reached; the state of the stacks goes on to the next call *)
-Definition model_call (nz : noise) (dec : decisions) (w : world) (lg : logger) (ids : list nat) (st : sinks) (cl : call) : sx * sinks :=
-  let r := front_call_s dec w lg all_io (c_method cl) (c_level cl) (c_msg cl) in
-  let st' := run_evs (c_lens cl) st (fst (fst r)) in
+Definition model_call (fx : fenv) (nz : noise) (dec : decisions) (w : world) (lg : logger) (ids : list nat) (st : sinks) (cl : call) : sx * sinks :=
+  let f := fam_of (c_method cl) in
+  let l := c_level cl in
+  let ws := call_writers_s dec w (lcore lg) f l in
+  let r := log_call_x fx dec w lg f l in
+  let st' := run_evs_x (fe_fails fx) (c_lens cl) st (fst r) in
   (* the entry goes through the CheckedEntry pool, with the log calls of hooks, sinks, marshalers and of the other
      goroutine in every gap: what the cores are handed and what the terminal action finds in the entry *)
-  let seen := wire_seen false {| en_level := c_level cl; en_msg := c_msg cl; en_name := nz_name nz |}
-                        (ncores (fst (fst r))) (nz_nested nz) (nz_conc nz) in
-  (SL [SL (map enc_ev (fst (fst r))); hook_term (snd (fst r)) (snd seen); enc_pend ids st';
-       SL (map (enc_report dec) (call_consulted dec w (lcore lg) (fam_of (c_method cl)) (c_level cl)));
-       SL (map enc_entry (hook_reads (fst (fst r)) (fst seen) ++ (if hook_looks (snd (fst r)) then [snd seen] else [])))], st').
+  let seen := wire_seen false {| en_level := l; en_msg := c_msg cl; en_name := nz_name nz |}
+                        (length ws) (nz_nested nz) (nz_conc nz) in
+  (SL [SL (map enc_ev (fst r)); hook_term (snd r) (snd seen); enc_pend ids st';
+       SL (map (enc_report dec) (call_consulted dec w (lcore lg) f l));
+       SL (map enc_entry (reads_x fx ws (fst seen) ++ (if hook_looks (snd r) then [snd seen] else [])))], st').
 (* the calls of a case, one after the other on the same logger: the decisions of the call at hand come from the
    counters (ps = (first, thereafter) of every sampler); afterwards every sampler the call reached has counted
    the entry *)
-Fixpoint model_calls (nz : noise) (ps : list (Z * Z)) (ctr : ctrs) (w : world) (lg : logger) (ids : list nat) (st : sinks)
+Fixpoint model_calls (fx : fenv) (nz : noise) (ps : list (Z * Z)) (ctr : ctrs) (w : world) (lg : logger) (ids : list nat) (st : sinks)
     (cls : list call) : list sx :=
   match cls with
   | [] => []
   | cl :: r => let b := c_bucket cl in
                let dec := ctr_dec ctr ps (c_level cl) b in
-               let o := model_call nz dec w lg ids st cl in
-               fst o :: model_calls nz ps (ctr_bump ctr (call_consulted dec w (lcore lg) (fam_of (c_method cl)) (c_level cl)) (c_level cl) b)
+               let o := model_call fx nz dec w lg ids st cl in
+               fst o :: model_calls fx nz ps (ctr_bump ctr (call_consulted dec w (lcore lg) (fam_of (c_method cl)) (c_level cl)) (c_level cl) b)
                                     w lg ids (snd o) r
   end.
 
 Definition model (i : sx) : sx :=
   if is_table i then SL (map enc_method methods) else
   let w0 := world_of (sx_nth i 1) in
-  let lg := dec_logger increase_ok w0 i in
-  let ps := sparams (sx_nth i 0) in
+  let lg := dec_logger enabled increase_ok w0 i in
+  let fx := dec_fenv i in
+  (* the samplers beneath a wrapper are never asked: they are not numbered *)
+  let ps := sparams (outer_sx enabled increase_ok w0 (sx_nth i 0)) in
   let calls := map dec_call (sx_l (sx_nth i 6)) in
   let child := sx_bool (sx_nth i 5) in
   let stks := dec_stacks i in
-  let ids := sk_ids (lcore lg) stks in
-  SL [SL (model_calls (dec_noise i) ps [] w0 lg ids (sk_init ids stks) calls);
+  let ids := sk_ids (all_leaves i) stks in
+  SL [SL (model_calls fx (dec_noise i) ps [] w0 lg ids (sk_init ids stks) calls);
       SL (match calls with
           | [cl] => if child then
-                      map (fun id => of_nat (flushed_lines id (fst (log_call_s (ctr_dec [] ps (c_level cl) (c_bucket cl)) w0 lg all_io (fam_of (c_method cl)) (c_level cl))) 0 0))
-                          (leaf_ids (lcore lg))
+                      map (fun id => of_nat (flushed_lines_x (fe_fails fx) id
+                                               (fst (log_call_x fx (ctr_dec [] ps (c_level cl) (c_bucket cl)) w0 lg (fam_of (c_method cl)) (c_level cl))) 0 0))
+                          (all_leaves i)
                     else []
           | _ => []
           end)].
@@ -454,6 +749,7 @@ Definition must_end (lg : logger) (l : level) : option action :=
 
 Definition writes_of (evs : list ev) : list nat := flat_map (fun e => match e with EWrite i => [i] | _ => [] end) evs.
 Definition ev_hooks_of (evs : list ev) : list nat := flat_map (fun e => match e with EHook h => [h] | _ => [] end) evs.
+Definition ev_fhooks_of (evs : list ev) : list nat := flat_map (fun e => match e with EFHook h => [h] | _ => [] end) evs.
 (* every Write above error level is immediately followed by the Sync of the same sink; no other Sync *)
 Fixpoint sync_ok (hi : bool) (evs : list ev) : bool :=
   match evs with
@@ -463,6 +759,19 @@ Fixpoint sync_ok (hi : bool) (evs : list ev) : bool :=
       else sync_ok hi r
   | ESync _ :: _ => false
   | EHook _ :: r => sync_ok hi r
+  | EFHook _ :: r => sync_ok hi r
+  end.
+(* the same when sinks may fail: the Write of a healthy IO core above error level is immediately followed by the
+   Sync of its sink; a Write that failed is not (ioCore.Write returns the error); no other Sync *)
+Fixpoint sync_ok_x (fails : nat -> bool) (hi : bool) (evs : list ev) : bool :=
+  match evs with
+  | [] => true
+  | EWrite i :: r =>
+      if hi && negb (fails i) then match r with ESync j :: r' => Nat.eqb i j && sync_ok_x fails hi r' | _ => false end
+      else sync_ok_x fails hi r
+  | ESync _ :: _ => false
+  | EHook _ :: r => sync_ok_x fails hi r
+  | EFHook _ :: r => sync_ok_x fails hi r
   end.
 (* the terminal observation a call at level l whose arguments amount to msg must end with: a panic
    carries exactly the message (also an empty one) *)
@@ -484,43 +793,49 @@ Definition spec_term (lg : logger) (l : level) (msg : bytes) : sx :=
           | _ => SL []
           end]
   end.
-(* every entry hook was handed, and a custom terminal hook finds in the *CheckedEntry, the entry of THIS call: its
+(* every entry hook - on the CheckedEntry or beneath a forwarding wrapper - was handed, and a custom terminal hook finds in the *CheckedEntry, the entry of THIS call: its
    level, its message, the name of its logger - however many other log calls ran since it was checked *)
 Definition spec_seen (lg : logger) (name : bytes) (cl : call) (evs : list ev) (o : sx) : bool :=
   sx_eqb o (SL (repeat (SL [SZ (c_level cl); SB (c_msg cl); SB name])
-                       (length (ev_hooks_of evs) +
+                       (length (ev_hooks_of evs) + length (ev_fhooks_of evs) +
                         match must_end lg (c_level cl) with Some (ACustom _) | Some (AHook _ _) => 1 | _ => 0 end))).
 
 (* "so the final message is never left in a buffer": when a call above error level ends - when control
    is lost, if the call is terminal - every recording sink below every leaf the entry was delivered to,
    whatever WriteSyncer combinators sit in between, has committed everything the IO core has written *)
 Definition is_zero (s : sx) : bool := match s with SZ 0 => true | _ => false end.
-Definition spec_pend (dec : decisions) (w : world) (lg : logger) (ids : list nat) (stks : list ws) (l : level) (o : sx) : bool :=
+(* the IO cores the entry must have been handed to: the leaves on the CheckedEntry and, for every forwarding wrapper
+   on it, every leaf the Write methods beneath the wrapper reach - whichever of them fail *)
+Definition must_reach (fx : fenv) (dec : decisions) (w : world) (lg : logger) (l : level) : list nat :=
+  flat_map (reach_of fx) (delivered_s dec w (lcore lg) 0 l).
+Definition spec_pend (fx : fenv) (dec : decisions) (w : world) (lg : logger) (ids : list nat) (stks : list ws) (l : level) (o : sx) : bool :=
   Nat.eqb (length (sx_l o)) (length ids) &&
   forallb (fun x : nat * sx =>
              let '(id, p) := x in
              Nat.eqb (length (sx_l p)) (sk_nsinks (sk_init ids stks id)) &&
-             (if (ErrorL <? l) && existsb (Nat.eqb id) (delivered_s dec w (lcore lg) 0 l) then forallb is_zero (sx_l p) else true))
+             (if (ErrorL <? l) && negb (fe_fails fx id) && existsb (Nat.eqb id) (must_reach fx dec w lg l)
+              then forallb is_zero (sx_l p) else true))
           (combine ids (sx_l o)).
 
 (* "handed to every accepting core ... even when the entry is sampled out": the samplers that reported a drop
    during the call excuse the leaves beneath themselves and no other (delivered_s: every root-to-leaf path all of
    whose level filters enable the level and none of whose samplers dropped) - a core next to, before or after a
-   sampler that drops, a disabled filter or a declining wrapper still gets the entry *)
-Definition spec_call (name : bytes) (w : world) (lg : logger) (ids : list nat) (stks : list ws) (cl : call) (o : sx) : bool :=
+   sampler that drops, a disabled filter, a declining wrapper or a core whose Write FAILS still gets the entry *)
+Definition spec_call (fx : fenv) (name : bytes) (w : world) (lg : logger) (ids : list nat) (stks : list ws) (cl : call) (o : sx) : bool :=
   let evs := map dec_ev (sx_l (sx_nth o 0)) in
   let l := c_level cl in
   let dec := reported_drop (sx_l (sx_nth o 3)) in
-  nat_list_eqb (writes_of evs) (delivered_s dec w (lcore lg) 0 l) && (* handed to every accepting core, in order *)
+  nat_list_eqb (writes_of evs) (must_reach fx dec w lg l) &&       (* handed to every accepting core, in order *)
   nat_list_eqb (ev_hooks_of evs) (hooks_due_s dec w (lcore lg) 0 l) &&
-  sync_ok (ErrorL <? l) evs &&                                     (* IO cores synced before control is lost *)
+  nat_list_eqb (ev_fhooks_of evs) (flat_map (fhooks_of fx) (delivered_s dec w (lcore lg) 0 l)) &&
+  sync_ok_x (fe_fails fx) (ErrorL <? l) evs &&                     (* healthy IO cores synced before control is lost *)
   sx_eqb (sx_nth o 1) (spec_term lg l (c_msg cl)) &&               (* and then the terminal action, or none *)
-  spec_pend dec w lg ids stks l (sx_nth o 2) &&                    (* with nothing left in a buffer *)
+  spec_pend fx dec w lg ids stks l (sx_nth o 2) &&                 (* with nothing left in a buffer *)
   spec_seen lg name cl evs (sx_nth o 4).                           (* on the entry that was logged *)
-Fixpoint spec_calls (name : bytes) (w : world) (lg : logger) (ids : list nat) (stks : list ws) (cls : list call) (os : list sx) : bool :=
+Fixpoint spec_calls (fx : fenv) (name : bytes) (w : world) (lg : logger) (ids : list nat) (stks : list ws) (cls : list call) (os : list sx) : bool :=
   match cls, os with
   | [], [] => true
-  | cl :: r, o :: os' => spec_call name w lg ids stks cl o && spec_calls name w lg ids stks r os'
+  | cl :: r, o :: os' => spec_call fx name w lg ids stks cl o && spec_calls fx name w lg ids stks r os'
   | _, _ => false
   end.
 Definition count_writes (id : nat) (l : list nat) : nat := length (filter (Nat.eqb id) l).
@@ -528,19 +843,21 @@ Definition count_writes (id : nat) (l : list nat) : nat := length (filter (Nat.e
 Definition spec (i o : sx) : bool :=
   if is_table i then sx_eqb o (SL (map enc_method methods)) else
   let w0 := world_of (sx_nth i 1) in
-  let lg := dec_logger spec_increase_ok w0 i in
+  let lg := dec_logger accepts spec_increase_ok w0 i in
+  let fx := dec_fenv i in
   let calls := map dec_call (sx_l (sx_nth i 6)) in
   let child := sx_bool (sx_nth i 5) in
   let stks := dec_stacks i in
-  spec_calls (sx_b (sx_nth (sx_nth i 8) 0)) w0 lg (sk_ids (lcore lg) stks) stks calls (sx_l (sx_nth o 0)) &&
-  (* child process running one call: after the process is gone, the file behind every buffered
-     sink holds one line per delivery of an entry above error level *)
+  spec_calls fx (sx_b (sx_nth (sx_nth i 8) 0)) w0 lg (sk_ids (all_leaves i) stks) stks calls (sx_l (sx_nth o 0)) &&
+  (* child process running one call: after the process is gone, the file behind every buffered sink that works
+     holds one line per delivery of an entry above error level *)
   (match calls with
    | [cl] => if child then
                let dec := reported_drop (sx_l (sx_nth (sx_nth (sx_nth o 0) 0) 3)) in
                nat_list_eqb (map sx_n (sx_l (sx_nth o 1)))
-                 (map (fun id => if ErrorL <? c_level cl then count_writes id (delivered_s dec w0 (lcore lg) 0 (c_level cl)) else 0%nat)
-                      (leaf_ids (lcore lg)))
+                 (map (fun id => if (ErrorL <? c_level cl) && negb (fe_fails fx id)
+                                 then count_writes id (must_reach fx dec w0 lg (c_level cl)) else 0%nat)
+                      (all_leaves i))
              else true
    | _ => true
    end).
